@@ -1,6 +1,255 @@
-import AGH.Spec.Access
-namespace AGH.C03
+/-
+C03 — Access lists: disallowed clients and blocked names are never served.
 
-theorem C03_stub : preBlockedResponse .udp = .drop := by decide
+Property theorems only; helper lemmas are in AGH/Lemmas/Access.lean.  Every
+theorem quantifies over ALL allowed/disallowed lists (any length, any mix of
+addresses, CIDRs of any length, ClientIDs), all client addresses (IPv4, IPv6
+with or without zone, IPv4-mapped), all ClientIDs, all six protocols.
+`newAccessCtx al bl = .ok a` says the configuration was accepted.
+
+History: finding F9 (HandleBefore answered SERVFAIL for a malformed ClientID
+before looking at the access lists, so an excluded client could get SERVFAIL
+instead of REFUSED) was repaired in /repo by ade6158; the model follows the
+repaired code and `C03_model_meets_spec` holds at full strength.  The witness
+stays in corpus/C03/cases.txt as a regression case.
+-/
+import AGH.Lemmas.Access
+namespace AGH.C03
+open AGH AGH.Bytes
+
+/-! ### the decision -/
+
+/-- `IsBlockedClient` computes exactly "the access settings exclude the
+client", for every real (non-zero) address. -/
+theorem C03_decision_eq_excluded {al bl : List Entry} {a : Access}
+    (h : newAccessCtx al bl = .ok a) {ip : IP} (hv : ip.isValid = true) (id : Bytes) :
+    (a.isBlockedClient ip id).1 = excluded al bl ip id := by
+  rw [decision_general h, excluded, hv]
+  cases al.isEmpty <;> simp
+
+/-- Allow-list mode: a client is admitted exactly when its address or its
+ClientID is allowed. -/
+theorem C03_allow_mode {al bl : List Entry} {a : Access} (h : newAccessCtx al bl = .ok a)
+    (hal : al ≠ []) {ip : IP} (hv : ip.isValid = true) (id : Bytes) :
+    (a.isBlockedClient ip id).1 = false ↔ (addrListed al ip = true ∨ idListed al id = true) := by
+  have he : al.isEmpty = false := by cases al <;> simp_all
+  rw [decision_general h, hv, he]
+  cases addrListed al ip <;> cases idListed al id <;> simp
+
+/-- Allow-list mode: the disallowed list is ignored (for every address, the
+zero one included, and every ClientID). -/
+theorem C03_allow_mode_ignores_disallowed {al bl bl' : List Entry} {a a' : Access}
+    (h : newAccessCtx al bl = .ok a) (h' : newAccessCtx al bl' = .ok a') (hal : al ≠ [])
+    (ip : IP) (id : Bytes) :
+    (a.isBlockedClient ip id).1 = (a'.isBlockedClient ip id).1 := by
+  have he : al.isEmpty = false := by cases al <;> simp_all
+  rw [decision_general h, decision_general h', he]
+  rfl
+
+/-- Block-list mode: a client is excluded exactly when its address or its
+ClientID is disallowed. -/
+theorem C03_block_mode {bl : List Entry} {a : Access} (h : newAccessCtx [] bl = .ok a)
+    (ip : IP) (id : Bytes) :
+    (a.isBlockedClient ip id).1 = true ↔ (addrListed bl ip = true ∨ idListed bl id = true) := by
+  rw [decision_general h]
+  simp
+
+/-- A CIDR entry names an address exactly when the two agree on every bit of
+the network part (bit 0 = least significant; the network part is the top
+`bits` bits of the 32 resp. 128), whatever the host bits written in the entry
+and whatever the client's zone. -/
+theorem C03_cidr_leading_bits (p : Prefix) :
+    (∀ n, inCIDR p (.v4 n) = true ↔
+      (p.is6 = false ∧ ∀ i, 32 - p.bits ≤ i → n.testBit i = p.addr.testBit i)) ∧
+    (∀ n z, inCIDR p (.v6 n z) = true ↔
+      (p.is6 = true ∧ ∀ i, 128 - p.bits ≤ i → n.testBit i = p.addr.testBit i)) := by
+  constructor
+  · intro n
+    simp only [inCIDR, Bool.and_eq_true, Bool.not_eq_true', beq_iff_eq, div_pow_eq_iff_bits]
+  · intro n z
+    simp only [inCIDR, Bool.and_eq_true, beq_iff_eq, div_pow_eq_iff_bits]
+
+/-- The code's test `ipnet.Contains(ip.WithZone(""))` (xor / shift / compare
+with zero, false across families) is that CIDR membership. -/
+theorem C03_contains_iff_inCIDR (p : Prefix) (ip : IP) :
+    p.contains ip.withoutZone = inCIDR p ip := contains_withoutZone p ip
+
+/-! ### what happens to the request
+
+`r.effectiveID` is the request's ClientID, or none when it could not be
+determined (then the client is judged by its address alone). -/
+
+/-- The action of the hook, for every accepted configuration and every request
+in scope: refusal (by transport) when the client is excluded or the name is
+blocked; otherwise pass, or SERVFAIL if the ClientID was malformed. -/
+theorem C03_handleBefore_eq {al bl : List Entry} {a : Access} (h : newAccessCtx al bl = .ok a)
+    (r : Request) (hs : inScope ⟨al, bl, r⟩ r.effectiveID = true) :
+    (handleBefore a r).1 =
+      if excluded al bl r.addr r.effectiveID || nameBlocked r then refusal r.proto
+      else match r.clientID with
+        | .ok _ => .pass
+        | .error _ => .servfail := by
+  have hd : (a.isBlockedClient r.addr r.effectiveID).1 = excluded al bl r.addr r.effectiveID :=
+    decision_in_scope h r hs
+  have hr : preBlockedResponse r.proto = refusal r.proto := by cases r.proto <;> rfl
+  unfold handleBefore
+  simp only [hd, hr]
+  cases hex : excluded al bl r.addr r.effectiveID
+  · cases hn : nameBlocked r
+    · have : ¬ (r.nq = 1 ∧ r.hostBlocked = true) := by simpa [nameBlocked] using hn
+      simp only [this, if_false, Bool.false_eq_true, Bool.or_self]
+      cases r.clientID <;> rfl
+    · have : r.nq = 1 ∧ r.hostBlocked = true := by simpa [nameBlocked] using hn
+      simp [this]
+  · simp
+
+/-- A request from an excluded client, or for a name on the blocked-hosts
+list, is dropped without a reply over UDP and DNSCrypt and answered REFUSED
+over every other transport — also when its ClientID is malformed. -/
+theorem C03_never_served {al bl : List Entry} {a : Access} (h : newAccessCtx al bl = .ok a)
+    (r : Request) (hv : r.addr.isValid = true)
+    (hex : excluded al bl r.addr r.effectiveID = true ∨ nameBlocked r = true) :
+    (handleBefore a r).1 = (if r.proto = .udp ∨ r.proto = .dnscrypt then Action.drop else .refused) := by
+  have hs : inScope ⟨al, bl, r⟩ r.effectiveID = true := by simp [inScope, hv]
+  rw [C03_handleBefore_eq h r hs]
+  have : (excluded al bl r.addr r.effectiveID || nameBlocked r) = true := by
+    rcases hex with hex | hex <;> simp [hex]
+  rw [this]
+  cases r.proto <;> simp [refusal]
+
+/-- … and it is never resolved, filtered, logged or counted, whatever the
+processing behind the hook would have done; the only bytes that go back are a
+REFUSED (none at all over UDP and DNSCrypt). -/
+theorem C03_not_processed {al bl : List Entry} {a : Access} (h : newAccessCtx al bl = .ok a)
+    (r : Request) (hv : r.addr.isValid = true)
+    (hex : excluded al bl r.addr r.effectiveID = true ∨ nameBlocked r = true)
+    (process : Request → Effects × Option Reply) :
+    (serve a process r).1.filtered = [] ∧ (serve a process r).1.upstream = [] ∧
+    (serve a process r).1.logged = [] ∧ (serve a process r).1.counted = [] ∧
+    (serve a process r).2 = (if r.proto = .udp ∨ r.proto = .dnscrypt then none else some .refused) := by
+  have := C03_never_served h r hv hex
+  unfold serve
+  rw [this]
+  by_cases hp : r.proto = .udp ∨ r.proto = .dnscrypt <;> simp [hp]
+
+/-- All other requests are served: the hook lets them through untouched (and
+remembers the ClientID for the rest of the pipeline). -/
+theorem C03_others_pass {al bl : List Entry} {a : Access} (h : newAccessCtx al bl = .ok a)
+    (r : Request) (id : Bytes) (hid : r.clientID = .ok id) (hv : r.addr.isValid = true)
+    (hex : excluded al bl r.addr id = false) (hn : nameBlocked r = false)
+    (process : Request → Effects × Option Reply) :
+    handleBefore a r = (.pass, id) ∧ serve a process r = process r := by
+  have he : r.effectiveID = id := by simp [Request.effectiveID, hid]
+  have hd := C03_decision_eq_excluded h hv id
+  have hb : handleBefore a r = (.pass, id) := by
+    unfold handleBefore
+    simp only [hid, he, hd, hex]
+    have : ¬ (r.nq = 1 ∧ r.hostBlocked = true) := by
+      simpa [nameBlocked] using hn
+    simp [this]
+  refine ⟨hb, ?_⟩
+  unfold serve
+  rw [hb]
+
+/-- A request whose ClientID cannot be determined is never processed either,
+for every configuration and address: it is refused like a request without
+ClientID, or answered SERVFAIL. -/
+theorem C03_bad_clientid_not_processed (a : Access) (r : Request) (e : C16.Err)
+    (hid : r.clientID = .error e) (process : Request → Effects × Option Reply) :
+    (serve a process r).1.filtered = [] ∧ (serve a process r).1.upstream = [] ∧
+    (serve a process r).1.logged = [] ∧ (serve a process r).1.counted = [] ∧
+    (serve a process r).2 ≠ some .processed := by
+  have : (handleBefore a r).1 ≠ .pass := by
+    unfold handleBefore
+    simp only [hid]
+    split
+    · cases r.proto <;> simp [preBlockedResponse]
+    · split
+      · cases r.proto <;> simp [preBlockedResponse]
+      · simp
+  unfold serve
+  cases hb : (handleBefore a r).1 <;> simp_all
+
+/-! ### the spec monitor on the model -/
+
+/-- The model satisfies the executable spec (the predicate the driver evaluates
+on the implementation's observations) for every accepted configuration and
+every request. -/
+theorem C03_model_meets_spec {al bl : List Entry} {a : Access}
+    (h : newAccessCtx al bl = .ok a) (r : Request) :
+    specOK ⟨al, bl, r⟩ (modelObs a r) = true := by
+  unfold specOK specFail
+  simp only
+  cases hs : inScope ⟨al, bl, r⟩ r.effectiveID with
+  | false => rfl
+  | true =>
+    have hd := decision_in_scope h r hs
+    have hact := C03_handleBefore_eq h r hs
+    simp only [modelObs, hd, hact, Bool.not_true, Bool.false_eq_true, if_false, bne_self_eq_false]
+    cases hc : (excluded al bl r.addr r.effectiveID || nameBlocked r)
+    · cases r.clientID <;> simp
+    · simp only [if_true]
+      cases r.proto <;> simp [refusal]
+
+/-! ### what the code does at the edges of the property (reading notes) -/
+
+/-- The zero `netip.Addr` skips the address test, so in allow-list mode it is
+admitted whatever its ClientID (DESIGN C03 note (i)). -/
+theorem C03_zero_addr_admitted_in_allow_mode (a : Access) (hm : a.allowlistMode = true) (id : Bytes) :
+    (a.isBlockedClient .invalid id).1 = false := by
+  rw [isBlockedClient_fst]
+  simp [hm, IP.isValid]
+
+/-- Zones: an address entry without zone does not name the same address with a
+zone (the entry `fe80::1` does not match a client `fe80::1%eth0`), while the
+CIDR `fe80::1/128` does. -/
+theorem C03_obs_zone_exact_vs_cidr (raw : Bytes) (n : Nat) (z : Bytes) (hz : z ≠ []) :
+    (∀ a, newAccessCtx [] [⟨raw, .addr (.v6 n [])⟩] = .ok a →
+      (a.isBlockedClient (.v6 n z) []).1 = false) ∧
+    (∀ a, newAccessCtx [] [⟨raw, .pfx ⟨true, n, 128⟩⟩] = .ok a →
+      (a.isBlockedClient (.v6 n z) []).1 = true) := by
+  constructor
+  · intro a h
+    rw [decision_general h]
+    have : (IP.v6 n [] == IP.v6 n z) = false := by
+      simp only [beq_eq_false_iff_ne, ne_eq, IP.v6.injEq, true_and]
+      exact fun h => hz h.symm
+    simp [addrListed, idListed, IP.isValid, this]
+  · intro a h
+    rw [decision_general h]
+    simp [addrListed, idListed, IP.isValid, inCIDR]
+
+/-- IPv4-mapped IPv6 addresses are IPv6 addresses: no IPv4 entry (address or
+CIDR, even `0.0.0.0/0`) ever names one. -/
+theorem C03_obs_v4_entries_never_name_v6 (es : List Entry)
+    (h4 : ∀ e ∈ es, (∃ m, e.parse = .addr (.v4 m)) ∨ (∃ m b, e.parse = .pfx ⟨false, m, b⟩) ∨ e.parse = .none)
+    (n : Nat) (z : Bytes) : addrListed es (.v6 n z) = false := by
+  simp only [addrListed, IP.isValid, Bool.true_and]
+  rw [List.any_eq_false]
+  intro e he
+  rcases h4 e he with ⟨m, hm⟩ | ⟨m, b, hm⟩ | hm <;> simp [hm, inCIDR]
+
+/-! ### non-vacuity: the hypotheses above are satisfiable by non-trivial states -/
+
+/-- Allow-list `[10.0.0.0/8, "cli"]`, disallowed `[10.0.0.1]`: 10.0.0.1 is
+admitted (disallowed list ignored), 11.0.0.1 without ClientID is excluded and
+dropped over UDP / REFUSED over TCP, 11.0.0.1 with ClientID `cli` is admitted. -/
+example :
+    let al : List Entry := [⟨[], .pfx ⟨false, 0x0a000000, 8⟩⟩, ⟨[99, 108, 105], .none⟩]
+    let bl : List Entry := [⟨[], .addr (.v4 0x0a000001)⟩]
+    ∃ a, newAccessCtx al bl = .ok a ∧
+      excluded al bl (.v4 0x0a000001) [] = false ∧
+      excluded al bl (.v4 0x0b000001) [] = true ∧
+      excluded al bl (.v4 0x0b000001) [99, 108, 105] = false ∧
+      (handleBefore a ⟨.udp, .v4 0x0b000001, .ok [], 1, false⟩).1 = .drop ∧
+      (handleBefore a ⟨.tcp, .v4 0x0b000001, .ok [], 1, false⟩).1 = .refused ∧
+      (handleBefore a ⟨.tls, .v4 0x0b000001, .ok [99, 108, 105], 1, false⟩) = (.pass, [99, 108, 105]) ∧
+      (handleBefore a ⟨.tls, .v4 0x0a000001, .ok [], 1, true⟩).1 = .refused := by
+  exact ⟨_, rfl, by decide, by decide, by decide, by decide, by decide, by decide, by decide⟩
+
+/-- ClientIDs in the lists are compared as written: the entry `MyPhone` does
+not name the (lower-cased, C16) request ClientID `myphone` (DESIGN O2). -/
+example : idListed [⟨[77, 121, 80, 104, 111, 110, 101], .none⟩] [109, 121, 112, 104, 111, 110, 101] = false := by
+  decide
 
 end AGH.C03
